@@ -32,10 +32,11 @@ def match_known(findings, pid, key):
     return None
 
 
-def write_replay(pid, v, tier, seed):
+def write_replay(pid, v, tier, seed, history_dependent=False):
     d = os.path.join(VERIF, "replays", pid)
     os.makedirs(d, exist_ok=True)
     body = dict(property=pid, key=v["key"], case=v["case"], msg=v["msg"],
+                unit=v.get("unit"), history_dependent=history_dependent,
                 observed=v.get("observed"), expected=v.get("expected"),
                 tier=tier, seed=seed,
                 replay_cmd="./check %s --replay <this file>" % pid)
@@ -127,7 +128,25 @@ def main(argv):
         explore._init_worker_inproc(mod)
         if os.environ.get("VERIF_REPLAY_QUIET") == "1":
             explore._silence_stdout()
-        viols = mod.replay(body["case"])
+        if body.get("history_dependent"):
+            # the violation needs the call history of its unit: re-run the unit from its start
+            r = explore.Result()
+            r.current_unit = body["unit"]
+
+            class _NoSup(object):
+                def begin(self, i):
+                    return True
+
+                def end(self):
+                    pass
+            r.sup = _NoSup()
+            try:
+                mod.run_unit(body["unit"], r)
+            except BaseException as e:
+                print("REPLAY: unit raised %r" % (e,))
+            viols = [v for k, lst in r.violations.items() if k == body["key"] for v in lst]
+        else:
+            viols = mod.replay(body["case"])
         out = sys.stderr if os.environ.get("VERIF_REPLAY_QUIET") == "1" else sys.stdout
         for v in viols:
             out.write("REPLAY-VIOLATION property=%s key=%s %s\n" % (pid, v["key"], v["msg"]))
@@ -165,6 +184,7 @@ def main(argv):
 
     findings = load_findings()
     known_lines, viol_lines, flaky = [], [], []
+    history_dep = []
     nk = nv = 0
     for key in sorted(res.violations):
         lst = res.violations[key]
@@ -187,10 +207,23 @@ def main(argv):
                 confirmed = (r.returncode != 0)
             except subprocess.TimeoutExpired:
                 confirmed = True
+            if not confirmed and v.get("unit") is not None:
+                # not reproduced by the single case: the failure may depend on the calls made before it in
+                # the same unit (state leaking between calls). Re-run the whole unit in a fresh process.
+                path = write_replay(pid, v, tier, seed, history_dependent=True)
+                try:
+                    r = subprocess.run([sys.executable, "-m", "mc.runner", pid, "--replay", path],
+                                       cwd=VERIF, env=env, capture_output=True, text=True,
+                                       timeout=getattr(mod, "UNIT_REPLAY_TIMEOUT", 1800))
+                    confirmed = (r.returncode != 0)
+                except subprocess.TimeoutExpired:
+                    confirmed = False
+                if confirmed:
+                    history_dep.append(key)
         if confirmed:
             nv += 1
             viol_lines.append("VIOLATION property=%s replay=%s" % (pid, path))
-            viol_lines.append("  key=%s n=%d: %s" % (key, len(lst), v["msg"][:600]))
+            viol_lines.append("  key=%s n=%d%s: %s" % (key, len(lst), " [history-dependent: reproduced by re-running its unit from the start in a fresh process, not by the case alone]" if key in history_dep else "", v["msg"][:600]))
         else:
             flaky.append("FLAKY property=%s key=%s replay=%s (did not fail again in a fresh process)" % (pid, key, path))
 
